@@ -638,7 +638,31 @@ func checkLimits(p *Program, r *Result) {
 				k := (dc*4 + 3) / 3 // the longest input whose decoding fits dc bytes
 				ok = sys.implied(ss, "0", k-sc)
 			}
-			if !ok && strings.Contains(ftb.Term(dst).String(), "DecodedLen(len("+ftb.Term(src).String()+"))") {
+			if ph, isPhi := dst.(*ssa.Phi); !ok && isPhi {
+				// the reader's own buffer where the decoded length fits it, a buffer made of the
+				// decoded length otherwise
+				srcT := ftb.Term(src).String()
+				all := len(ph.Edges) > 0
+				for i, e := range ph.Edges {
+					if strings.Contains(ftb.Term(e).String(), "DecodedLen(") && strings.Contains(ftb.Term(e).String(), "len("+srcT+")") {
+						continue
+					}
+					pr := ph.Block().Preds[i]
+					facts := ftb.FactsAt(pr)
+					for k, sc := range pr.Succs {
+						if sc == ph.Block() {
+							if _, isIf := pr.Instrs[len(pr.Instrs)-1].(*ssa.If); isIf {
+								facts = ftb.FactsOnEdge(pr, k)
+							}
+						}
+					}
+					_, fits := findFact(facts, func(a Atom) bool {
+						return a.Kind == "cmp" && a.Op == "<=" && a.X != nil && strings.Contains(a.X.String(), "DecodedLen(") && strings.Contains(a.X.String(), "len("+srcT+")")
+					})
+					all = all && fits
+				}
+				ok = all
+			} else if !ok && strings.Contains(ftb.Term(dst).String(), "DecodedLen(len("+ftb.Term(src).String()+"))") {
 				ok = true
 			}
 			r.Check(ok, fn.String(), "precondition:base64.Decode#"+itoa(i), r.pos(c), "the destination holds DecodedLen(len(src)) bytes", "base64 Decode is handed a destination ("+short(ftb.Term(dst).String())+") not known to hold DecodedLen(len(src)) bytes for every input: it panics on an over-long field of a hostile file")
